@@ -144,6 +144,10 @@ pub struct ASt {
     pub n_changes: u64,
     pub n_not_monotone: u64,
     last: Option<(u64, u64)>, // (index, n)
+    /// rates with 1/rate >= 2^53 where some selectable weight is more than 1 away from 1/rate
+    pub rates_not_within_1: u64,
+    /// largest |weight - 1/rate| among those, as the exact fraction d/m (and the rate's bits)
+    pub max_abs_dev: (u128, u32, u32),
     pub viol: Vec<KeyBest>,
     /// explain mode: render the descriptions of this one rate instead of counting
     pub render: bool,
@@ -212,6 +216,26 @@ fn split_n(rate: f32) -> u64 {
     __verif_rate_to_n_alpha(rate).0
 }
 
+/// "a single integer within 1 of 1/rate - its floor or ceiling whenever 1/rate is below 2^53";
+/// returns true when the weight is more than 1 away in the >= 2^53 range
+fn check_weight(st: &mut ASt, bits: u32, rate: f32, inv: &Inverse, small: bool, w: u64, ctx: &dyn Fn(u64) -> Value) -> bool {
+    if small {
+        if w as u128 != inv.floor() && w as u128 != inv.ceil() {
+            st.fail("weight-not-floor-or-ceil", bits, || format!("rate {rate:e}: weight {w} can be chosen but 1/rate = {} (< 2^53)", inv.describe()), || ctx(w));
+        }
+        false
+    } else if !inv.within_1(w) {
+        let d = ((w as u128 * inv.m as u128) as i128 - (1i128 << inv.s)).unsigned_abs(); // |w - 1/rate| = d/m
+        let (bd, bm, _) = st.max_abs_dev;
+        if bm == 0 || d * bm as u128 > bd * inv.m as u128 { st.max_abs_dev = (d, inv.m, bits) }
+        let key = if inv.within_1_plus_f64_rounding(w) { "weight-not-within-1:f64-rounding-of-inverse" } else { "weight-not-within-1:beyond-f64-rounding" };
+        st.fail(key, bits, || format!("rate {rate:e}: weight {w} can be chosen but 1/rate = {} (>= 2^53), more than 1 away", inv.describe()), || ctx(w));
+        true
+    } else {
+        false
+    }
+}
+
 pub fn check_rate(st: &mut ASt, index: u64) {
     let bits = FIRST_BITS + index as u32;
     let rate = f32::from_bits(bits);
@@ -265,16 +289,11 @@ pub fn check_rate(st: &mut ASt, index: u64) {
     let mut achievable = [None, None];
     if cnt > 0 { achievable[0] = Some(n) }
     if cnt < TWO53_U { achievable[1] = Some(w1) }
+    let mut off_by_more_than_1 = false;
     for w in achievable.into_iter().flatten() {
-        if small {
-            if w as u128 != inv.floor() && w as u128 != inv.ceil() {
-                st.fail("weight-not-floor-or-ceil", bits, || format!("rate {rate:e}: weight {w} can be chosen but 1/rate = {} (< 2^53)", inv.describe()), || ctx(w));
-            }
-        } else if !inv.within_1(w) {
-            let key = if inv.within_1_plus_f64_rounding(w) { "weight-not-within-1:f64-rounding-of-inverse" } else { "weight-not-within-1:beyond-f64-rounding" };
-            st.fail(key, bits, || format!("rate {rate:e}: weight {w} can be chosen but 1/rate = {} (>= 2^53), more than 1 away", inv.describe()), || ctx(w));
-        }
+        off_by_more_than_1 |= check_weight(st, bits, rate, &inv, small, w, &ctx);
     }
+    if off_by_more_than_1 { st.rates_not_within_1 += 1 }
 
     // expectation over the 2^53 equally likely draws
     match expectation_deviation_num(&inv, n, w1, cnt) {
@@ -303,6 +322,7 @@ pub fn check_rate(st: &mut ASt, index: u64) {
         let w = weight_for_draw(rate, cnt - 1);
         if w != n {
             st.fail("weight-choice-not-threshold", bits, || format!("rate {rate:e}: draw {}/2^53 < alpha={alpha:e} picked {w}, expected n={n}", cnt - 1), || ctx(w));
+            check_weight(st, bits, rate, &inv, small, w, &ctx); // the weight really applied
         }
     }
     if cnt < TWO53_U {
@@ -310,6 +330,7 @@ pub fn check_rate(st: &mut ASt, index: u64) {
         let w = weight_for_draw(rate, cnt);
         if w != w1 {
             st.fail("weight-choice-not-threshold", bits, || format!("rate {rate:e}: draw {cnt}/2^53 >= alpha={alpha:e} picked {w}, expected n+1={w1}"), || ctx(w));
+            check_weight(st, bits, rate, &inv, small, w, &ctx);
         }
     }
 }
